@@ -18,4 +18,14 @@ PROPS = {
                 "EncodedFastaRecord complement methods on random sequences (A/C/G/T, sprinkled or uniform IUPAC, gaps, lower case, "
                 "lengths not divisible by 3); non-trivial = the sequence contains a non-A/C/G/T symbol",
     },
+    "C16": {
+        "streams": {"C16": (3000, 60000)},
+        "thorough_seeds": 3,
+        "shrink": True,
+        "rule": "half: valid alignments (1-8 records, widths 1-120, 17 symbols, mixed case, descriptions with spaces/tabs/leading blanks) under a "
+                "random layout (per-record line widths, LF/CRLF, final newline or not) with the expected records known; half: the same files under 1-2 "
+                "structured corruptions (delete/duplicate/blank/CR-only line, header without ID, blank first line, non-IUPAC byte, shortened/lengthened row in any "
+                "record, no leading header, empty, only headers, empty last record, garbage line); all five readers run in-process on the same bytes with "
+                "panic recovery and a time-out; non-trivial = corrupted, multi-record or CRLF; distinct = distinct byte stream",
+    },
 }
